@@ -142,13 +142,28 @@ Definition wrapper_is_coro (md : mdecl) (w : wrapper) : bool :=
 Definition trans_wrappers (t : rtrans) : list wrapper :=
   rt_validators t ++ rt_cond t ++ rt_before t ++ rt_on t ++ rt_after t.
 
-Definition resolve (md : mdecl) : rmachine :=
+Definition resolve_all (md : mdecl) : rmachine :=
   let ss := mapi (resolve_state md) 0 (md_states md) in
   let ts := map (resolve_trans md) (md_trans md) in
   {| rm_states := ss; rm_trans := ts;
      rm_start := md_start md; rm_rtc := md_rtc md; rm_allow := md_allow md;
      rm_async := existsb (wrapper_is_coro md)
                    (flat_map trans_wrappers ts ++ flat_map (fun s => rs_enter s ++ rs_exit s) ss) |}.
+
+Definition with_rounds (md : mdecl) (r : list (list nat)) : mdecl :=
+  {| md_states := md_states md; md_trans := md_trans md; md_start := md_start md; md_rtc := md_rtc md;
+     md_allow := md_allow md; md_providers := md_providers md; md_coro := md_coro md; md_rounds := r |}.
+
+(* the engine (sync or async) is chosen once, from what the constructor registered; listeners added
+   later extend the executors but never change the engine *)
+Definition resolve (md : mdecl) : rmachine :=
+  let r := resolve_all md in
+  {| rm_states := rm_states r; rm_trans := rm_trans r; rm_start := rm_start r; rm_rtc := rm_rtc r;
+     rm_allow := rm_allow r;
+     rm_async := rm_async (resolve_all (with_rounds md [hd [] (md_rounds md)])) |}.
+
+(* add_listener( *objs ): one more resolution round *)
+Definition add_round (md : mdecl) (ps : list nat) : mdecl := with_rounds md (md_rounds md ++ [ps]).
 
 (* StateMachine() raises InvalidDefinition iff this is false *)
 Definition check_ok (md : mdecl) : bool :=
